@@ -75,6 +75,19 @@ pub fn compute_error(
     errors
 }
 
+/// `compute_error` together with its "every error value is a FLAC residual" flag.
+pub fn compute_error_fits(
+    coefs: &[i16],
+    shift: i8,
+    precision: usize,
+    signal: &[i32],
+) -> (Vec<i32>, bool) {
+    let qps = QuantizedParameters::from_parts(coefs, coefs.len(), shift, precision);
+    let mut errors = vec![0i32; signal.len()];
+    let fits = crate::lpc::compute_error(&qps, signal, &mut errors);
+    (errors, fits)
+}
+
 /// Returns `(coefs, shift, precision)` of the quantized parameters.
 pub fn quantize_parameters(coefs: &[f64], precision: usize) -> (Vec<i16>, i8, usize) {
     let q = crate::lpc::quantize_parameters(coefs, precision);
